@@ -106,6 +106,20 @@ def run(tier: str) -> Run:
                  {'dense': dense_vals[:2], 'binned': binned_vals[:2]}, key=fq)
         r4.check(not muts, fi.qualname, loc(fi), {'writes': uniq(muts)[:3]}, key=fq)
 
+    # the top-level entry points must not write to the data they are given either
+    r4b = run.rule('R4b', 'convert / deduce_conversion_graph / conversion_graph write to nothing reachable from their arguments', 3)
+    from sa.effects import Effects
+    eff = Effects(repo)
+    eff.solve()
+    for name in ('convert', 'deduce_conversion_graph', 'conversion_graph'):
+        cfi = repo.func('core.conversions', name)
+        s_ = eff.summaries[cfi.fq]
+        if s_.mutates:
+            tok, m = sorted(s_.mutates.items())[0]
+            r4b.fail(name, m.where, {'writes_to': sorted(s_.mutates), 'statement': m.stmt, 'via': m.via}, key=f'core.conversions:{name}')
+        else:
+            r4b.ok(name)
+
     # the helpers themselves
     r5 = run.rule('R5', 'elem_unit / elem_dtype / float_dtype / as_float_type read the event buffer of binned operands', 4)
     for name in ('elem_unit', 'elem_dtype', 'float_dtype'):
